@@ -88,10 +88,34 @@ def parse_asserts(text, ks=None):
     return out
 
 
+HOSTILE_DIR = os.path.join('ns_h', 'we"ird\\dir')    # a double quote and a backslash in the DSDL path
+
+
+def standalone(job, s, d, ext):
+    """every generated header compiled on its own (nothing pre-included): header -> exit status"""
+    out = {}
+    c = s['lang'] == 'c'
+    files = []
+    if not s.get('omit'):
+        files.append('nunavut/support/serialization' + ext)
+    for root, _, names in os.walk(os.path.join(d, 'typ')):
+        files += [os.path.relpath(os.path.join(root, n), os.path.join(d, 'typ')) for n in sorted(names) if n.endswith(ext)]
+    os.makedirs(os.path.join(d, 'alone'), exist_ok=True)
+    for i, h in enumerate(files):
+        tu = os.path.join(d, 'alone', 'a%d%s' % (i, '.c' if c else '.cpp'))
+        with open(tu, 'w') as f:
+            f.write('#include "%s"\nint main(void) { return 0; }\n' % h)
+        rc, log = run(['gcc' if c else 'g++', '-std=' + (s.get('std') or ('c11' if c else 'c++14')), '-fsyntax-only', '-fno-diagnostics-color',
+                       '-I', os.path.join(d, 'sup'), '-I', os.path.join(d, 'typ'), '-I', os.path.join(job['scratch'], 'inc'), tu])
+        out[h] = [rc, log[-300:] if rc else '']
+    return out
+
+
 def gen_set(job, s):
     d = os.path.join(job['scratch'], 'out', s['id'])
     os.makedirs(d, exist_ok=True)
-    base = [PY, '-m', 'nunavut', os.path.join(job['scratch'], 'ns', job['root']), '--target-language', s['lang'], '--experimental-languages'] + list(s.get('cli') or [])
+    ns_dir = os.path.join(job['scratch'], HOSTILE_DIR if s.get('hostile') else 'ns', job['root'])
+    base = [PY, '-m', 'nunavut', ns_dir, '--target-language', s['lang'], '--experimental-languages'] + list(s.get('cli') or [])
     if s.get('overrides'):
         cfg = os.path.join(d, 'cfg.yaml')
         with open(cfg, 'w', encoding='utf-8') as f:
@@ -132,6 +156,8 @@ def gen_set(job, s):
     if not res['asserts']:
         res['ok'] = False
         res['log'] = 'no type headers generated'
+    elif s.get('standalone'):
+        res['standalone'] = standalone(job, s, d, ext)
     return s['id'], res
 
 
@@ -155,12 +181,12 @@ def compile_pair(job, p, sets):
     c = p['lang'] == 'c'
     tu = os.path.join(d, p['id'] + ('.c' if c else '.cpp'))
     with open(tu, 'w') as f:
-        f.write('#include <assert.h>\n' if c else '#include <cassert>\n')
+        # nothing is pre-included: the generated headers must bring in what they use (assert.h / cassert included)
         for h in headers:
             f.write('#include "%s"\n' % h)
         f.write('int main(void) { return 0; }\n')
     cmd = ['gcc' if c else 'g++', '-std=' + p['std'], '-fsyntax-only', '-fmax-errors=0', '-fno-diagnostics-color',
-           '-fdiagnostics-show-caret', '-DNUNAVUT_ASSERT(x)=assert(x)']
+           '-fdiagnostics-show-caret', '-DNUNAVUT_ASSERT(x)=((void)(x))']
     if p.get('sup'):
         cmd += ['-I', os.path.join(job['scratch'], 'out', p['sup'], 'sup')]
     cmd += ['-I', os.path.join(job['scratch'], 'inc')]
@@ -220,11 +246,12 @@ def compile_pair(job, p, sets):
 
 def main():
     job = json.load(sys.stdin)
-    for rel, text in job['dsdl'].items():
-        path = os.path.join(job['scratch'], 'ns', rel)
-        os.makedirs(os.path.dirname(path), exist_ok=True)
-        with open(path, 'w', encoding='utf-8') as f:
-            f.write(text)
+    for nsd in ('ns', HOSTILE_DIR):
+        for rel, text in job['dsdl'].items():
+            path = os.path.join(job['scratch'], nsd, rel)
+            os.makedirs(os.path.dirname(path), exist_ok=True)
+            with open(path, 'w', encoding='utf-8') as f:
+                f.write(text)
     for name, text in (job.get('local_headers') or {}).items():
         os.makedirs(os.path.join(job['scratch'], 'inc'), exist_ok=True)
         with open(os.path.join(job['scratch'], 'inc', name), 'w', encoding='utf-8') as f:
